@@ -353,3 +353,58 @@ Proof.
   - (* GREASE ECH *) rewrite bo_ech. apply andb_true_iff in Hf. destruct Hf as [Hk Ha].
     apply ech_ok; try assumption; lia.
 Qed.
+
+(* ------------------------------------------------------------------ *)
+(* a message in combinator layout parses to its fields *)
+
+Lemma read_enc_u24lp_nil b : blen b < 16777216 -> read_u24lp (enc_u24lp b) = Some (b, []).
+Proof. intros H. rewrite <- (app_nil_r (enc_u24lp b)). now apply read_enc_u24lp. Qed.
+
+Lemma ext_item_enc (x : N * bytes) r : fst x < 65536 /\ blen (snd x) < 65536 ->
+  ext_item (enc_ext x ++ r) = Some (x, r).
+Proof.
+  intros [Hid Hlen]. unfold ext_item, enc_ext. rewrite <- app_assoc, read_enc_u16 by exact Hid. cbn [obind].
+  rewrite read_enc_u16lp by exact Hlen. cbn [obind]. destruct x; reflexivity.
+Qed.
+
+Definition ast_ok (a : ch_ast) : Prop :=
+  c_vers a < 65536 /\ blen (c_random a) = 32 /\ blen (c_sid a) <= 32
+  /\ nonempty (c_suites a) = true /\ all_u16 (c_suites a) = true /\ 2 * blen (c_suites a) < 65536
+  /\ nonempty (c_comp a) = true /\ blen (c_comp a) < 256
+  /\ (if c_has_exts a
+      then Forall (fun x => fst x < 65536 /\ blen (snd x) < 65536) (c_exts a)
+           /\ forallb (fun x => body_okb (fst x) (snd x)) (c_exts a) = true
+           /\ blen (flat_map enc_ext (c_exts a)) < 65536
+      else c_exts a = []).
+
+Lemma strict_parse_layout a : ast_ok a -> strict_parse (hello_layout a) = Some a.
+Proof.
+  intros (Hv & Hr & Hsid & Hsne & Hsu & Hslen & Hcne & Hclen & Hx).
+  destruct a as [vers random sid suites comp has exts]. cbn [c_vers c_random c_sid c_suites c_comp c_has_exts c_exts] in *.
+  unfold hello_layout. cbn [c_vers c_random c_sid c_suites c_comp c_has_exts c_exts].
+  set (tailb := if has then enc_u16lp (flat_map enc_ext exts) else []).
+  assert (Htail : blen tailb < 65536 + 2).
+  { unfold tailb. destruct has; [rewrite blen_enc_u16lp; lia | rewrite blen_nil; lia]. }
+  set (body := enc_u16 vers ++ random ++ enc_u8lp sid ++ enc_u16lp (flat_map enc_u16 suites) ++ enc_u8lp comp ++ tailb).
+  assert (Hbody : blen body < 16777216).
+  { unfold body. rewrite !blen_app, blen_enc_u16, !blen_enc_u8lp, blen_enc_u16lp, blen_flat_u16. lia. }
+  unfold strict_parse. cbn [app read_u8 obind]. change (1 =? 1) with true. cbn [negb].
+  rewrite read_enc_u24lp_nil by exact Hbody. cbn [exact obind].
+  unfold body. rewrite read_enc_u16 by exact Hv. cbn [obind].
+  match goal with |- context [read_bytes 32 (random ++ ?x)] => pose proof (read_bytes_app random x) as Hrb end.
+  rewrite Hr in Hrb. rewrite Hrb. cbn [obind].
+  rewrite read_enc_u8lp by lia. cbn [obind].
+  destruct (N.ltb_spec 32 (blen sid)) as [Hbad|_]; [lia|].
+  rewrite read_enc_u16lp by (rewrite blen_flat_u16; lia). cbn [obind].
+  rewrite nonempty_flat_u16 by exact Hsne. cbn [negb].
+  rewrite read_u16s_flat by exact Hsu. cbn [obind].
+  rewrite read_enc_u8lp by exact Hclen. cbn [obind]. rewrite Hcne. cbn [negb].
+  unfold tailb. destruct has.
+  - destruct Hx as (Hall & Hok & Hlen).
+    assert (Hne : empty (enc_u16lp (flat_map enc_ext exts)) = false) by reflexivity.
+    rewrite Hne. rewrite read_enc_u16lp_nil by exact Hlen. cbn [exact obind].
+    rewrite (items_flat enc_ext ext_item (fun x => x) _ ext_item_enc) with (l := exts);
+      [| intros x _; unfold enc_ext, enc_u16; discriminate | exact Hall | apply le_n].
+    cbn [obind]. rewrite map_id, Hok. reflexivity.
+  - subst exts. reflexivity.
+Qed.
